@@ -10,6 +10,9 @@ Read from the working tree on every run:
   h3/src/frame.rs                     FrameStream::into_inner body, poll_next WebTransport arm
   h3/src/connection.rs                poll_accept_recv: guard of the WebTransportUni arm, Unknown arm stop code
   h3-webtransport/src/server.rs       WebTransportSession::accept: where the session id comes from
+  h3/src/stream.rs, h3/src/buf.rs     whole bodies of BufRecvStream::{poll_data, poll_read, take_chunk, split}, of both AsyncRead
+                                      impls (futures, tokio) and of BufList::{take_chunk, take_first_chunk}
+  h3-webtransport/src/stream.rs       the poll_data / poll_read / split wrappers are pass-throughs
 """
 import re
 from rustsrc import Source, AnchorLost, parse_int, match_close
@@ -59,6 +62,65 @@ def header_arm(body, variant, types):
     if ty is None or spos is None:
         raise AnchorLost('header arm incomplete: ' + variant)
     return ty, tpos < spos
+
+
+def squash(t):
+    return re.sub(r'\s+', '', t)
+
+
+def inner_fn_body(block, name):
+    """body of `fn name` inside an already extracted impl block (whitespace squashed)"""
+    m = re.search(r'\bfn\s+' + name + r'\b', block)
+    if not m:
+        raise AnchorLost('fn %s in impl block' % name)
+    i = m.end()
+    depth = 0
+    while i < len(block):
+        c = block[i]
+        if c in '([':
+            depth += 1
+        elif c in ')]':
+            depth -= 1
+        elif c == '{' and depth == 0:
+            break
+        i += 1
+    j = match_close(block, i)
+    return squash(block[i + 1:j])
+
+
+GUARDS = {'!p.has_remaining()': 1, '!p.is_eos()': 2}
+
+# the two hand-written AsyncRead bodies of BufRecvStream, whole statement sequence, whitespace removed;
+# the guard expression and the capacity expression are the extracted facts
+FUT_BODY = re.compile(
+    r'^letp=&mut\*self;if(?P<guard>[^{]+)\{leteos=ready!\(p\.poll_read\(cx\)\.map_err\(convert_to_std_io_error\)\)\?;'
+    r'ifeos\{returnPoll::Ready\(Ok\(0\)\);\}\}letchunk=p\.buf_mut\(\)\.take_chunk\((?P<cap>[^;]+)\);'
+    r'ifletSome\(chunk\)=chunk\{assert!\(chunk\.len\(\)<=buf\.len\(\)\);letlen=chunk\.len\(\)\.min\(buf\.len\(\)\);'
+    r'buf\[\.\.len\]\.copy_from_slice\(&chunk\);Poll::Ready\(Ok\(len\)\)\}else\{Poll::Ready\(Ok\(0\)\)\}$')
+TOKIO_BODY = re.compile(
+    r'^letp=&mut\*self;if(?P<guard>[^{]+)\{leteos=ready!\(p\.poll_read\(cx\)\.map_err\(convert_to_std_io_error\)\)\?;'
+    r'ifeos\{returnPoll::Ready\(Ok\(\(\)\)\);\}\}letchunk=p\.buf_mut\(\)\.take_chunk\((?P<cap>[^;]+)\);'
+    r'ifletSome\(chunk\)=chunk\{assert!\(chunk\.len\(\)<=buf\.remaining\(\)\);buf\.put_slice\(&chunk\);'
+    r'Poll::Ready\(Ok\(\(\)\)\)\}else\{Poll::Ready\(Ok\(\(\)\)\)\}$')
+SPLIT_BODY = re.compile(
+    r'^let\(send,recv\)=self\.stream\.split\(\);\(BufRecvStream\{buf:(?P<b1>[^,]+),eos:self\.eos,stream:send,_marker:PhantomData,\},'
+    r'BufRecvStream\{buf:(?P<b2>[^,]+),eos:self\.eos,stream:recv,_marker:PhantomData,\},\)$')
+POLL_DATA_BODY = ('ifletSome(chunk)=self.buf.take_first_chunk(){returnPoll::Ready(Ok(Some(chunk)));}'
+                  'ifletSome(mutdata)=ready!(self.stream.poll_data(cx))?{Poll::Ready(Ok(Some(data.copy_to_bytes(data.remaining()))))}'
+                  'else{self.eos=true;Poll::Ready(Ok(None))}')
+BRS_POLL_READ_BODY = ('letdata=ready!(self.stream.poll_data(cx))?;ifletSome(mutdata)=data{self.buf.push_bytes(&mutdata);'
+                      'Poll::Ready(Ok(false))}else{self.eos=true;Poll::Ready(Ok(true))}')
+
+
+def read_body(block, rx, what):
+    body = inner_fn_body(block, 'poll_read')
+    m = rx.match(body)
+    if not m:
+        raise AnchorLost(what + ' body changed: ' + body[:200])
+    g = m.group('guard')
+    if g not in GUARDS:
+        raise AnchorLost(what + ' guard: ' + g)
+    return GUARDS[g], m.group('cap')
 
 
 def extract(repo):
@@ -160,6 +222,69 @@ def extract(repo):
     f['into_stream_wt_type'] = stypes[m.group(1)]
     arms = re.findall(r'StreamType::(\w+)\s*=>\s*AcceptedRecvStream::(\w+)\(', body)
     f['into_stream_arms'] = [(stypes[a], b) for a, b in arms if a in stypes]
+
+
+    # ---- BufRecvStream: the read paths applications use after the hand-over, and split()
+    blk, spans['brs_poll_data'], _ = st.item_block(r'impl<S:\s*RecvStream,\s*B>\s*RecvStream\s+for\s+BufRecvStream<S,\s*B>')
+    if inner_fn_body(blk, 'poll_data') != POLL_DATA_BODY:
+        raise AnchorLost('BufRecvStream::poll_data body changed')
+    blk, spans['brs_inherent'], _ = st.item_block(r'impl<B,\s*S:\s*RecvStream>\s*BufRecvStream<S,\s*B>')
+    if inner_fn_body(blk, 'poll_read') != BRS_POLL_READ_BODY:
+        raise AnchorLost('BufRecvStream::poll_read body changed')
+    if inner_fn_body(blk, 'take_chunk') != 'self.buf.take_chunk(limit)':
+        raise AnchorLost('BufRecvStream::take_chunk body changed')
+    blk, spans['futures_async_read'], _ = st.item_block(r'impl<S,\s*B>\s*futures_util::io::AsyncRead\s+for\s+BufRecvStream<S,\s*B>')
+    f['fut_guard'], cap = read_body(blk, FUT_BODY, 'futures AsyncRead')
+    f['fut_take_capacity'] = (cap == 'buf.len()')
+    if not f['fut_take_capacity']:
+        raise AnchorLost('futures AsyncRead take_chunk argument: ' + cap)
+    blk, spans['tokio_async_read'], _ = st.item_block(r'impl<S,\s*B>\s*tokio::io::AsyncRead\s+for\s+BufRecvStream<S,\s*B>')
+    f['tokio_guard'], cap = read_body(blk, TOKIO_BODY, 'tokio AsyncRead')
+    f['tokio_take_capacity'] = (cap == 'buf.remaining()')
+    if not f['tokio_take_capacity']:
+        raise AnchorLost('tokio AsyncRead take_chunk argument: ' + cap)
+    blk, spans['brs_split'], _ = st.item_block(r'impl<S,\s*B>\s*BidiStream<B>\s+for\s+BufRecvStream<S,\s*B>')
+    m = SPLIT_BODY.match(inner_fn_body(blk, 'split'))
+    if not m:
+        raise AnchorLost('BufRecvStream::split body changed')
+    halves = (m.group('b1'), m.group('b2'))
+    if halves == ('BufList::new()', 'self.buf'):
+        f['split_buf_to_recv'] = True
+    elif halves == ('self.buf', 'BufList::new()'):
+        f['split_buf_to_recv'] = False
+    else:
+        raise AnchorLost('BufRecvStream::split buffers: %s / %s' % halves)
+    # BufList::take_chunk / take_first_chunk
+    bl = Source(repo + '/h3/src/buf.rs')
+    blk, spans['buflist_bytes'], _ = bl.item_block(r'impl\s+BufList<Bytes>')
+    if inner_fn_body(blk, 'take_first_chunk') != 'self.bufs.pop_front()':
+        raise AnchorLost('BufList::take_first_chunk body changed')
+    if inner_fn_body(blk, 'take_chunk') != ('letchunk=self.bufs.front_mut().map(|chunk|chunk.split_to(usize::min(max_len,chunk.remaining())));'
+                                            'ifletSome(front)=self.bufs.front(){iffront.remaining()==0{let_=self.bufs.pop_front();}}chunk'):
+        raise AnchorLost('BufList::take_chunk body changed')
+    # h3-webtransport wrappers: reads and split are pass-throughs to the BufRecvStream
+    ws = Source(repo + '/h3-webtransport/src/stream.rs')
+    blk, spans['wt_bidi_split'], _ = ws.item_block(r'impl<S,\s*B>\s*quic::BidiStream<B>\s+for\s+BidiStream<S,\s*B>')
+    if inner_fn_body(blk, 'split') != 'let(send,recv)=self.stream.split();(SendStream::new(send),RecvStream::new(recv))':
+        raise AnchorLost('h3-webtransport BidiStream::split body changed')
+    n_pass = 0
+    for mm in re.finditer(r'fn\s+poll_read\b', ws.text):
+        i = ws.text.index('{', ws.text.index(')', mm.end()))
+        # skip the return type: find the body brace after `->`
+        k = ws.text.index('->', mm.end())
+        i = ws.text.index('{', k)
+        j = match_close(ws.text, i)
+        if squash(ws.text[i + 1:j]) != 'letp=self.project();p.stream.poll_read(cx,buf)':
+            raise AnchorLost('h3-webtransport poll_read wrapper changed')
+        n_pass += 1
+    if n_pass != 4:
+        raise AnchorLost('h3-webtransport AsyncRead wrappers: %d' % n_pass)
+    for mm in re.finditer(r'fn\s+poll_data\b', ws.text):
+        k = ws.text.index('->', mm.end())
+        i = ws.text.index('{', k)
+        j = match_close(ws.text, i)
+        if squash(ws.text[i + 1:j]) != 'self.stream.poll_data(cx)':
+            raise AnchorLost('h3-webtransport poll_data wrapper changed')
 
     # ---- frame.rs: into_inner, poll_next
     fr = Source(repo + '/h3/src/frame.rs')
@@ -265,5 +390,13 @@ def render(f):
          'Definition wt_unknown_stop_code : N := %s.' % f['unknown_stop_code'],
          'Definition wt_fallthrough_is_noop : bool := %s.' % b(f['fallthrough_is_noop']),
          'Definition wt_end_of_stream_removes : bool := %s.' % b(f['end_of_stream_removes']),
-         'Definition wt_session_from_connect_stream : bool := %s.' % b(f['session_from_connect_stream'])]
+         'Definition wt_session_from_connect_stream : bool := %s.' % b(f['session_from_connect_stream']),
+         '(* AsyncRead for BufRecvStream (futures / tokio): what makes the body skip the transport. 1 = data is buffered (!has_remaining() guards the poll), 2 = eos flag (!is_eos()) *)',
+         'Definition wt_fut_guard : N := %d.' % f['fut_guard'],
+         'Definition wt_tokio_guard : N := %d.' % f['tokio_guard'],
+         '(* take_chunk is called with the capacity of the destination (buf.len() / buf.remaining()) *)',
+         'Definition wt_fut_take_capacity : bool := %s.' % b(f['fut_take_capacity']),
+         'Definition wt_tokio_take_capacity : bool := %s.' % b(f['tokio_take_capacity']),
+         '(* BidiStream::split for BufRecvStream: the buffered bytes go to the receive half *)',
+         'Definition wt_split_buf_to_recv : bool := %s.' % b(f['split_buf_to_recv'])]
     return '\n'.join(L) + '\n'
